@@ -54,7 +54,7 @@ def RuleStatement : Prop :=
     WF head = true → WF body = true → CallableHead head = true →
     compile (.compound ":-" (.cons head (.cons body .nil))) = .ok cs →
     cs.length = (altBodies body).length ∧
-    ∀ i (c : Clause) (alt : Rep), cs[i]? = some c → (altBodies body)[i]? = some alt →
+    ∀ (i : Nat) (c : Clause) (alt : Rep), cs[i]? = some c → (altBodies body)[i]? = some alt →
       decompile c = some (Rep.abs head, (seqGoals alt).map goalTerm) ∧
       c.raw = Rep.abs (.compound ":-" (.cons head (.cons body .nil)))
 
